@@ -21,6 +21,10 @@ func plainStartup(user string) []byte {
 // nesting depth up to 8 (quick) .. 16.
 func genErrors(r *rand.Rand, id string) *Case {
 	c := baseCase(id, "errors")
+	if r.Intn(60) == 0 {
+		c.Extra["direct"] = "errnil" // ErrorCode(writer, nil)
+		return c
+	}
 	in := plainStartup("u")
 	n := 1 + r.Intn(3)
 	for i := 0; i < n; i++ {
@@ -470,14 +474,15 @@ func init() { generators["surplus"] = genSurplus }
 // genBind (C08): Parse / Bind / Describe / Execute with generated parameter values, parameter
 // format codes and result format codes. Expectations (computed here from how the message
 // was built, independently of the library and of the Lean model):
-//   xx  = the parameters the statement function must see (format.hexvalue | format.~ for NULL)
-//   xtf = the format codes Describe(portal) must announce, xd = the fields of the DataRow,
-//   xt  = the parameter OIDs Describe(statement) must announce, xn = decoded scans.
+//
+//	xx  = the parameters the statement function must see (format.hexvalue | format.~ for NULL)
+//	xtf = the format codes Describe(portal) must announce, xd = the fields of the DataRow,
+//	xt  = the parameter OIDs Describe(statement) must announce, xn = decoded scans.
 func genBind(r *rand.Rand, id string) *Case {
 	c := baseCase(id, "bind")
 	in := plainStartup("u")
 	// columns: int4 and text only (their encodings are trivial to predict here)
-	ncols := r.Intn(4)
+	ncols := r.Intn(6)
 	colLetters := make([]byte, ncols)
 	vals := make([]string, ncols)
 	ivals := make([]int32, ncols)
@@ -561,14 +566,22 @@ func genBind(r *rand.Rand, id string) *Case {
 			rf[i] = uint16(r.Intn(2))
 		}
 	}
-	rfmt := func(i int) uint16 {
-		switch len(rf) {
-		case 0:
-			return 0
-		case 1:
-			return rf[0]
+	if ncols >= 3 && r.Intn(5) == 0 {
+		// a count that is neither 0, 1 nor the number of columns: not sanctioned by the protocol, but
+		// the server must neither crash nor disagree with itself (positional, the first code beyond)
+		rf = make([]uint16, 2+r.Intn(ncols-2))
+		for i := range rf {
+			rf[i] = uint16(r.Intn(2))
 		}
-		return rf[i]
+	}
+	rfmt := func(i int) uint16 {
+		switch {
+		case len(rf) == 0:
+			return 0
+		case len(rf) > i:
+			return rf[i]
+		}
+		return rf[0]
 	}
 	// scans: decode parameter k as int4 (23) or text (25) through the parameter's own decoder
 	var ops, xn []string
@@ -1091,7 +1104,7 @@ func genBinCopy(_ *rand.Rand, id string) *Case {
 	r := rand.New(rand.NewSource(seed*15485863 + int64(base)*7 + 3))
 	c := baseCase(id, "bincopy")
 	c.Extra["grp"] = strconv.Itoa(base)
-	letters := []byte("islt" + "ybu")
+	letters := []byte("islt" + "ybuz")
 	ncols := 1 + r.Intn(4)
 	cols := make([]byte, ncols)
 	colspec := make([]string, ncols)
@@ -1114,7 +1127,11 @@ func genBinCopy(_ *rand.Rand, id string) *Case {
 	}
 	var xb []string
 	var rowStarts []int
+	var rowEnds []int
 	for i := 0; i < nrows; i++ {
+		if i > 0 {
+			rowEnds = append(rowEnds, len(stream))
+		}
 		rowStarts = append(rowStarts, len(stream))
 		stream = append(stream, be16(uint16(ncols))...)
 		vals := make([]string, ncols)
@@ -1138,7 +1155,7 @@ func genBinCopy(_ *rand.Rand, id string) *Case {
 				v := int64(r.Uint64())
 				raw = append(be32(uint32(uint64(v)>>32)), be32(uint32(uint64(v)))...)
 				vals[j] = "i" + strconv.FormatInt(v, 10)
-			case 't':
+			case 't', 'z':
 				raw = randBytes(r, r.Intn(7), false)
 				vals[j] = "t" + hex.EncodeToString(raw)
 			case 'y':
@@ -1157,14 +1174,18 @@ func genBinCopy(_ *rand.Rand, id string) *Case {
 		}
 		xb = append(xb, "b+"+strings.Join(vals, ","))
 	}
+	if nrows > 0 {
+		rowEnds = append(rowEnds, len(stream))
+	}
 	trailer := r.Intn(2) == 0
 	if trailer {
 		stream = append(stream, 0xff, 0xff)
 	}
 	xb = append(xb, "b.")
+	insideRow := false
 	// corruption
 	valid := true
-	badRow := -1     // the row whose field count lies
+	badRow := -1        // the row whose field count lies
 	prefixOnly := false // only rows of the original stream may be returned
 	switch r.Intn(9) {
 	case 0:
@@ -1180,9 +1201,15 @@ func genBinCopy(_ *rand.Rand, id string) *Case {
 		}
 	case 1:
 		if len(stream) > 3 { // truncated somewhere
-			stream = stream[:1+r.Intn(len(stream)-1)]
+			cutAt := 1 + r.Intn(len(stream)-1)
+			stream = stream[:cutAt]
 			valid = false
 			prefixOnly = true
+			for i := range rowStarts {
+				if rowStarts[i] < cutAt && cutAt < rowEnds[i] {
+					insideRow = true // the stream ends in the middle of a row: an error, never a clean end
+				}
+			}
 		}
 	case 2:
 		if nrows > 0 { // a corrupted field length word
@@ -1257,6 +1284,9 @@ func genBinCopy(_ *rand.Rand, id string) *Case {
 	if badRow >= 0 {
 		// the rows before the lying one, then an error: never a crash, never a fabricated row
 		c.Extra["xbk"] = "=" + strings.Join(xb[:badRow], ";")
+	}
+	if insideRow {
+		c.Extra["xbt"] = "=1"
 	}
 	if prefixOnly {
 		// whatever is returned as a row is a row the client encoded, in order
@@ -1547,9 +1577,15 @@ func genMulti(r *rand.Rand, id string) *Case {
 	// overlapping; (2) connection 0 leaves a failed extended-query batch open (no Sync yet) while
 	// the others run complete cycles; (3) parameters of an array type decoded concurrently (the
 	// codec memoizes its plan in the type map: a shared map shows up under the race detector)
-	variant := r.Intn(6)
+	variant := r.Intn(7)
 	if variant == 1 {
 		c.Auth = true
+	}
+	if variant == 4 {
+		// connection 0 runs to its end and is closed before the others start: what its callbacks
+		// retained must survive the traffic of later connections (C18)
+		c.Extra["sched"] = "seq"
+		c.Extra["early"] = "1"
 	}
 	for i := 0; i < k; i++ {
 		in := startup(196608, [][2]string{{"user", users[i]}, {"database", "db" + strconv.Itoa(i)}}, true)
@@ -1570,6 +1606,9 @@ func genMulti(r *rand.Rand, id string) *Case {
 		}
 		if variant == 2 && i > 0 {
 			pc = 1 << 30 // the whole session runs while connection 0 is still discarding
+		}
+		if variant == 4 && i == 0 {
+			pc = 1 << 30
 		}
 		// same names on every connection, different definitions
 		q := "t,i/25/r:t" + hxs(users[i]) + ",i" + strconv.Itoa(i) + ";s:25,0;c:" + hxs("ROW") + "/ok"
@@ -1698,7 +1737,7 @@ func init() {
 
 // ---- C09: row values -------------------------------------------------------------------------
 
-var valueLetters = []byte("bsiltvyufd")
+var valueLetters = []byte("bsiltvyzufd") // float types last: binary format only
 
 // genGoodVal: a value the column's codec accepts, boundary-heavy; "n"/"N"/"V" are the NULL forms.
 func genGoodVal(r *rand.Rand, letter byte, big bool) string {
@@ -1737,7 +1776,7 @@ func genGoodVal(r *rand.Rand, letter byte, big bool) string {
 		return "i" + strconv.FormatInt([]int64{0, 1, -1, 2147483647, -2147483648, 65536, -65537, 16777216, int64(int32(r.Uint32()))}[r.Intn(9)], 10)
 	case 'l':
 		return "i" + strconv.FormatInt([]int64{0, 1, -1, 9223372036854775807, -9223372036854775808, 4294967296, -4294967297, 1000000000000000000, int64(r.Uint64())}[r.Intn(9)], 10)
-	case 't', 'v':
+	case 't', 'v', 'z':
 		return "t" + hex.EncodeToString(bytesOf())
 	case 'y':
 		return "y" + hex.EncodeToString(bytesOf())
@@ -1801,10 +1840,13 @@ func genValues(r *rand.Rand, id string) *Case {
 	for i := range letters {
 		pool := valueLetters
 		if rfmt(i) == 0 {
-			pool = valueLetters[:8] // float text format is outside the Lean model
+			pool = valueLetters[:len(valueLetters)-2] // float text format is outside the Lean model
 		}
 		letters[i] = pool[r.Intn(len(pool))]
 		colspec[i] = string(letters[i])
+		if r.Intn(6) == 0 {
+			colspec[i] += "~"
+		}
 		fmts[i] = strconv.Itoa(int(rfmt(i)))
 	}
 	nrows := r.Intn(6)
